@@ -1,4 +1,5 @@
 import IGVerif.Proofs.ComboBrace
+import IGVerif.Proofs.ComboShared
 /-! Round trip in brace mode: a braced operator tree over nested statements is parsed into
     exactly that tree, each nested statement text (component symbol, braces, content) being one
     leaf. -/
@@ -135,5 +136,269 @@ theorem detectB_leaf (hdr flat : Str) (hb : BOk (.one hdr flat)) (a b fuel : Nat
     rw [detect]
     simp only [h1, h3]
     simp
+
+/-! ### the round trip in brace mode -/
+
+def treeOfB : BT → CNode
+  | .one hdr flat => .leaf (hdr ++ '{' :: flat ++ ['}'])
+  | .op o l r => .comb o.str [] [] (treeOfB l) (treeOfB r)
+
+def depthB : BT → Nat
+  | .one _ _ => 1
+  | .op _ l r => 1 + max (depthB l) (depthB r)
+
+theorem cleanShared_leftB (a : Nat) : cleanShared (sp a ++ ['{']) = [] := by
+  have h : trimBoth isIgnoredShared (sp a ++ ['{']) = sp a := by
+    cases a with
+    | zero => simp [sp, trimBoth, trimL, isIgnoredShared]
+    | succ n =>
+      have e : sp (n+1) = ' ' :: sp n := by simp [sp, List.replicate_succ]
+      unfold trimBoth
+      rw [e, List.cons_append, trimL_stop _ _ _ (by decide), ← List.cons_append, ← e, List.reverse_append, reverse_sp]
+      simp only [List.reverse_cons, List.reverse_nil, List.nil_append, List.cons_append]
+      rw [trimL, if_pos (by decide), e, trimL_stop _ _ _ (by decide), ← e, reverse_sp]
+  simp [cleanShared, h, trimWs_sp]
+
+theorem cleanShared_rightB (b : Nat) : cleanShared ('}' :: sp b) = [] := by
+  have h : trimBoth isIgnoredShared ('}' :: sp b) = sp b := by
+    cases b with
+    | zero => simp [sp, trimBoth, trimL, isIgnoredShared]
+    | succ n =>
+      have e : sp (n+1) = ' ' :: sp n := by simp [sp, List.replicate_succ]
+      unfold trimBoth
+      rw [trimL, if_pos (by decide), e, trimL_stop _ _ _ (by decide), ← e, reverse_sp, e, trimL_stop _ _ _ (by decide),
+        ← e, reverse_sp]
+  simp [cleanShared, h, trimWs_sp]
+
+/-- brace mode has no early exit -/
+theorem parseB_unfold (input : Str) (f : Nat) (nested : Bool) :
+    parse true (f+1) input nested
+      = afterDetect '{' '}' (parse true f) nested (detect '{' '}' (input.length + 1) input) := by
+  rw [parse]
+  simp
+
+/-- a nested statement on its own: no complete combination, the parser returns the empty node -/
+theorem parseB_leaf (hdr flat : Str) (hb : BOk (.one hdr flat)) (a b f : Nat) (nested : Bool) :
+    parse true (f+1) (sp a ++ renderB (.one hdr flat) ++ sp b) nested
+      = .res ⟨.empty, sp a ++ renderB (.one hdr flat) ++ sp b, cNoError⟩ := by
+  rw [parseB_unfold, detectB_leaf hdr flat hb, afterDetect]
+  simp [entsB, firstComplete]
+
+theorem trimSp_leafB (hdr flat : Str) (hne : hdr ≠ []) (hhd : hdr.head? ≠ some ' ') (a b : Nat) :
+    trimSp (sp a ++ renderB (.one hdr flat) ++ sp b) = renderB (.one hdr flat) := by
+  apply trimSp_word
+  refine ⟨by simp [renderB], ?_, ?_⟩
+  · cases hdr with
+    | nil => exact absurd rfl hne
+    | cons c u => simpa [renderB] using hhd
+  · have e : renderB (.one hdr flat) = (hdr ++ '{' :: flat) ++ ['}'] := by simp [renderB]
+    rw [e, List.getLast?_append]
+    simp
+
+/-- one side of a combination in brace mode -/
+theorem side_operandB (x : BT) (hx : BOk x) (f : Nat) (a b : Nat) (input : Str) (soFar : CNode)
+    (hP : ∀ o l r, x = .op o l r →
+      parse true (f+1) (sp a ++ renderB x ++ sp b) true = .res ⟨treeOfB x, sp a ++ renderB x ++ sp b, cNoError⟩) :
+    side '{' '}' (parse true (f+1)) input soFar (sp a ++ renderB x ++ sp b) = .child (treeOfB x) := by
+  cases hx with
+  | one hdr flat hp hne hhd hf hfne =>
+    have hb : BOk (.one hdr flat) := .one hdr flat hp hne hhd hf hfne
+    unfold side
+    rw [detectB_leaf hdr flat hb]
+    simp only [List.isEmpty_cons, Bool.false_eq_true, if_false]
+    rw [parseB_leaf hdr flat hb]
+    have ht := trimSp_leafB hdr flat hne hhd a b
+    have hne' : renderB (.one hdr flat) ≠ [] := by simp [renderB]
+    simp only [ht, hne', treeOfB, cNoError, ne_eq, not_true_eq_false, false_and, if_false, not_false_eq_true, if_true]
+    simp [renderB]
+  | op o l r hl hr =>
+    have hb : BOk (.op o l r) := .op o l r hl hr
+    obtain ⟨lm', hd, hl0⟩ := detectB_render _ hb a b ((sp a ++ renderB (.op o l r) ++ sp b).length + 1)
+    have hne : lm'.isEmpty = false := by
+      cases lm' with
+      | nil => simp at hl0
+      | cons _ _ => rfl
+    unfold side
+    rw [hd]
+    simp only [hne, hP o l r rfl]
+    simp [treeOfB]
+
+/-- the boundary the scan records for `{l [o] r}` written at position `n` -/
+def bndB (o : Op3) (l r : BT) (n : Nat) : Bnd :=
+  { left := n + 1, right := n + (renderB l).length + (renderB r).length + o.str.length + 5,
+    op := n + (renderB l).length + 2, opVal := o.str, complete := true }
+
+theorem entsB_op (o : Op3) (l r : BT) (n : Nat) : entsB (.op o l r) n = [bndB o l r n] := rfl
+
+/-- after the scan: the node of the combination `{l [o] r}` that stands, alone on the first
+    level, between arbitrary text `pre` and `post`, given the shared text found for it -/
+theorem afterDetectB_gen (o : Op3) (l r : BT) (hl : BOk l) (hr : BOk r) (f : Nat) (pre post : Str) (nested : Bool)
+    (rest : LM) (sl sr : List Str)
+    (ihl : ∀ o' l' r', l = .op o' l' r' → ∀ a b,
+      parse true (f+1) (sp a ++ renderB l ++ sp b) true = .res ⟨treeOfB l, sp a ++ renderB l ++ sp b, cNoError⟩)
+    (ihr : ∀ o' l' r', r = .op o' l' r' → ∀ a b,
+      parse true (f+1) (sp a ++ renderB r ++ sp b) true = .res ⟨treeOfB r, sp a ++ renderB r ++ sp b, cNoError⟩)
+    (hsh : extractShared (pre ++ renderB (.op o l r) ++ post) ([bndB o l r pre.length] :: rest) 0 0
+      [bndB o l r pre.length] (bndB o l r pre.length) = (sl, sr)) :
+    afterDetect '{' '}' (parse true (f+1)) nested
+        (.ok ([bndB o l r pre.length] :: rest) (pre ++ renderB (.op o l r) ++ post))
+      = .res ⟨.comb o.str sl sr (treeOfB l) (treeOfB r), pre ++ renderB (.op o l r) ++ post, cNoError⟩ := by
+  obtain ⟨I, hI⟩ : ∃ I, I = pre ++ renderB (.op o l r) ++ post := ⟨_, rfl⟩
+  rw [← hI] at hsh ⊢
+  have hI1 : I = (pre ++ ['{']) ++ (renderB l ++ [' ']) ++ (o.br ++ ' ' :: renderB r ++ '}' :: post) := by
+    rw [hI]; simp [renderB]
+  have hI2 : I = (pre ++ '{' :: renderB l ++ ' ' :: o.br) ++ (' ' :: renderB r) ++ ('}' :: post) := by
+    rw [hI]; simp [renderB]
+  have hbr : (o.br).length = o.str.length + 2 := by simp [Op3.br]
+  have hleft : slice I (pre.length + 1) (pre.length + (renderB l).length + 2) = sp 0 ++ renderB l ++ sp 1 :=
+    slice_of I _ _ _ _ _ hI1 (by simp) (by simp; omega) |>.trans (by simp [sp])
+  have hright : slice I (pre.length + (renderB l).length + 2 + o.str.length + 2)
+      (pre.length + (renderB l).length + (renderB r).length + o.str.length + 5) = sp 1 ++ renderB r ++ sp 0 :=
+    slice_of I _ _ _ _ _ hI2 (by simp [hbr]; omega) (by simp [hbr]; omega) |>.trans (by simp [sp])
+  have hs1 := side_operandB l hl f 0 1 I (.comb o.str sl sr .nil .nil) (fun o' l' r' h => ihl o' l' r' h 0 1)
+  have hs2 := side_operandB r hr f 1 0 I (.comb o.str sl sr (treeOfB l) .nil) (fun o' l' r' h => ihr o' l' r' h 1 0)
+  rw [afterDetect]
+  simp only [firstComplete, bndB]
+  simp only [List.isEmpty_cons, Bool.false_eq_true, if_false, List.any_cons, List.any_nil, Bool.or_false, if_true]
+  rw [procEntries]
+  simp only [bndB] at hsh
+  simp only [hsh]
+  simp only [hleft, hright]
+  simp only [Bool.not_true, Bool.false_eq_true, if_false, hs1]
+  simp only [hs2]
+  cases nested <;> simp [procEntries, finish]
+
+theorem afterDetectB_op (o : Op3) (l r : BT) (hl : BOk l) (hr : BOk r) (f a b : Nat) (nested : Bool) (rest : LM)
+    (ihl : ∀ o' l' r', l = .op o' l' r' → ∀ a b,
+      parse true (f+1) (sp a ++ renderB l ++ sp b) true = .res ⟨treeOfB l, sp a ++ renderB l ++ sp b, cNoError⟩)
+    (ihr : ∀ o' l' r', r = .op o' l' r' → ∀ a b,
+      parse true (f+1) (sp a ++ renderB r ++ sp b) true = .res ⟨treeOfB r, sp a ++ renderB r ++ sp b, cNoError⟩) :
+    afterDetect '{' '}' (parse true (f+1)) nested
+        (.ok (entsB (.op o l r) a :: rest) (sp a ++ renderB (.op o l r) ++ sp b))
+      = .res ⟨treeOfB (.op o l r), sp a ++ renderB (.op o l r) ++ sp b, cNoError⟩ := by
+  have hbr : (o.br).length = o.str.length + 2 := by simp [Op3.br]
+  have hI1' : sp a ++ renderB (.op o l r) ++ sp b
+      = (sp a ++ ['{']) ++ ((renderB l ++ [' ']) ++ (o.br ++ ' ' :: renderB r ++ '}' :: sp b)) := by
+    simp [renderB]
+  have hI2' : sp a ++ renderB (.op o l r) ++ sp b
+      = (sp a ++ '{' :: renderB l ++ ' ' :: o.br ++ ' ' :: renderB r) ++ ('}' :: sp b) := by
+    simp [renderB]
+  have hsh : extractShared (sp a ++ renderB (.op o l r) ++ sp b) ([bndB o l r (sp a).length] :: rest) 0 0
+      [bndB o l r (sp a).length] (bndB o l r (sp a).length) = ([], []) := by
+    have htake : (sp a ++ renderB (.op o l r) ++ sp b).take (a + 1) = sp a ++ ['{'] := by
+      rw [hI1', List.take_left' (by simp [length_sp])]
+    have hdrop : (sp a ++ renderB (.op o l r) ++ sp b).drop (a + (renderB l).length + (renderB r).length + o.str.length + 5)
+        = '}' :: sp b := by
+      rw [hI2', List.drop_left' (by simp [length_sp, hbr]; omega)]
+    simp only [extractShared, enclosing, bndB, length_sp, htake, hdrop, if_true, Nat.zero_add,
+      List.getElem?_cons_succ, List.getElem?_nil, cleanShared_leftB, cleanShared_rightB]
+  have := afterDetectB_gen o l r hl hr f (sp a) (sp b) nested rest [] [] ihl ihr hsh
+  simp only [length_sp] at this
+  rw [entsB_op, this]
+  simp [treeOfB]
+
+theorem parseB_render_aux (t : BT) (ht : BOk t) : ∀ o l r, t = .op o l r → ∀ (fuel a b : Nat) (nested : Bool),
+    depthB t ≤ fuel →
+    parse true fuel (sp a ++ renderB t ++ sp b) nested = .res ⟨treeOfB t, sp a ++ renderB t ++ sp b, cNoError⟩ := by
+  induction ht with
+  | one hdr flat _ _ _ _ _ => intro o l r h; cases h
+  | op o l r hl hr ihl ihr =>
+    intro _ _ _ _ fuel a b nested hf
+    have hb : BOk (.op o l r) := .op o l r hl hr
+    have hdl : 1 ≤ depthB l := by cases l <;> simp [depthB]
+    simp only [depthB] at hf
+    obtain ⟨f, rfl⟩ : ∃ f, fuel = f + 2 := ⟨fuel - 2, by omega⟩
+    obtain ⟨lm', hd, hl0⟩ := detectB_render _ hb a b ((sp a ++ renderB (.op o l r) ++ sp b).length + 1)
+    obtain ⟨es0, rest, hlm⟩ : ∃ es0 rest, lm' = es0 :: rest := by
+      cases lm' with
+      | nil => simp at hl0
+      | cons x xs => exact ⟨x, xs, rfl⟩
+    subst hlm
+    simp only [List.getElem?_cons_zero, Option.some.injEq] at hl0
+    subst hl0
+    rw [parseB_unfold, hd]
+    exact afterDetectB_op o l r hl hr f a b nested rest
+      (fun o' l' r' h a b => ihl o' l' r' h (f+1) a b true (by omega))
+      (fun o' l' r' h a b => ihr o' l' r' h (f+1) a b true (by omega))
+
+/-- **Round trip in brace mode.** A braced operator tree over nested statements is parsed into
+    exactly that tree; every nested statement (symbol, braces, content with its parenthesised
+    components and the operators inside them) is one leaf; the text is unchanged, no error. -/
+theorem parseB_render (o : Op3) (l r : BT) (h : BOk (.op o l r)) (nested : Bool) (fuel : Nat)
+    (hf : depthB (.op o l r) ≤ fuel) :
+    parse true fuel (renderB (.op o l r)) nested = .res ⟨treeOfB (.op o l r), renderB (.op o l r), cNoError⟩ := by
+  have := parseB_render_aux _ h o l r rfl fuel 0 0 nested hf
+  simpa [sp] using this
+
+/-- **The text as `parseNestedStatementCombination` passes it**: the component symbol in front of
+    the braced combination. The tree is the written one; the symbol ends up as shared left text
+    of the root (where the caller reads the component type from the leaves, not from it). -/
+theorem parseB_with_symbol (hdr : Str) (o : Op3) (l r : BT) (h : BOk (.op o l r)) (hh : SWord hdr) (hb : BPlain hdr)
+    (nested : Bool) (fuel : Nat) (hf : depthB (.op o l r) ≤ fuel) :
+    parse true fuel (hdr ++ renderB (.op o l r)) nested
+      = .res ⟨.comb o.str [hdr] [] (treeOfB l) (treeOfB r), hdr ++ renderB (.op o l r), cNoError⟩ := by
+  cases h with
+  | op _ _ _ hl hr =>
+    have hbk : BOk (.op o l r) := .op o l r hl hr
+    have hdl : 1 ≤ depthB l := by cases l <;> simp [depthB]
+    simp only [depthB] at hf
+    obtain ⟨f, rfl⟩ : ∃ f, fuel = f + 2 := ⟨fuel - 2, by omega⟩
+    -- the scan
+    have h1 : Validate.parCount '{' '}' (hdr ++ renderB (.op o l r)) 0 = 0 := by
+      rw [parCountB_nobrace _ _ _ hb.noBrace]
+      have := parCountB_render _ hbk [] 0
+      simpa [Validate.parCount] using this
+    obtain ⟨lm', h2, hE⟩ := scan_renderB _ hbk [] (0 + hdr.length) {} (by simp) rfl
+    have h3 : scan '{' '}' (hdr ++ renderB (.op o l r)) 0 {} = .done lm' := by
+      have e : hdr ++ renderB (.op o l r) = hdr ++ (renderB (.op o l r) ++ []) := by simp
+      rw [e, scan_plainB _ _ _ _ hb, h2, scan]
+    have hd : detect '{' '}' ((hdr ++ renderB (.op o l r)).length + 1) (hdr ++ renderB (.op o l r))
+        = .ok lm' (hdr ++ renderB (.op o l r)) := by
+      rw [detect]
+      simp only [h1, h3]
+      simp
+    have hl0 : lm'[0]? = some [bndB o l r hdr.length] := by
+      have := hE.at_
+      simp only [List.length_nil, List.getElem?_nil, Option.getD_none, List.nil_append, Nat.zero_add, entsB_op] at this
+      exact some_of_getD_append lm' 0 [] _ (by simpa using this)
+    obtain ⟨es0, rest, hlm⟩ : ∃ es0 rest, lm' = es0 :: rest := by
+      cases lm' with
+      | nil => simp at hl0
+      | cons x xs => exact ⟨x, xs, rfl⟩
+    subst hlm
+    simp only [List.getElem?_cons_zero, Option.some.injEq] at hl0
+    subst hl0
+    rw [parseB_unfold, hd]
+    -- shared text: the symbol on the left, nothing on the right
+    have hbr : (o.br).length = o.str.length + 2 := by simp [Op3.br]
+    have hsh : extractShared (hdr ++ renderB (.op o l r) ++ []) ([bndB o l r hdr.length] :: rest) 0 0
+        [bndB o l r hdr.length] (bndB o l r hdr.length) = ([hdr], []) := by
+      have hI1 : hdr ++ renderB (.op o l r) ++ [] = (hdr ++ ['{']) ++ (renderB l ++ ' ' :: o.br ++ ' ' :: renderB r ++ ['}']) := by
+        simp [renderB]
+      have hI2 : hdr ++ renderB (.op o l r) ++ [] = (hdr ++ '{' :: renderB l ++ ' ' :: o.br ++ ' ' :: renderB r) ++ ['}'] := by
+        simp [renderB]
+      have htake : (hdr ++ renderB (.op o l r) ++ []).take (hdr.length + 1) = hdr ++ ['{'] := by
+        rw [hI1, List.take_left' (by simp)]
+      have hdrop : (hdr ++ renderB (.op o l r) ++ []).drop (hdr.length + (renderB l).length + (renderB r).length + o.str.length + 5)
+          = ['}'] := by
+        rw [hI2, List.drop_left' (by simp [hbr]; omega)]
+      obtain ⟨c, u, d, v, ht, hr', hwc, hic, hwd, hid⟩ := hh.split
+      have e1 : cleanShared (hdr ++ ['{']) = [hdr] := by
+        have t1 : trimBoth isIgnoredShared (hdr ++ ['{']) = hdr := by
+          have := trimBoth_core isIgnoredShared [] hdr ['{'] (by simp) (by simp [isIgnoredShared]) c u ht hic d v hr' hid
+          simpa using this
+        have t2 : trimWs hdr = hdr := by
+          have := trimBoth_core isWs [] hdr [] (by simp) (by simp) c u ht hwc d v hr' hwd
+          simpa [trimWs] using this
+        unfold cleanShared
+        rw [t1, t2]
+        simp [hh.ne]
+      have e2 : cleanShared ['}'] = [] := by simpa [sp] using cleanShared_rightB 0
+      simp only [extractShared, enclosing, bndB, htake, hdrop, if_true, Nat.zero_add,
+        List.getElem?_cons_succ, List.getElem?_nil, e1, e2]
+    have := afterDetectB_gen o l r hl hr f hdr [] nested rest [hdr] []
+      (fun o' l' r' h a b => parseB_render_aux l hl o' l' r' h (f+1) a b true (by omega))
+      (fun o' l' r' h a b => parseB_render_aux r hr o' l' r' h (f+1) a b true (by omega)) hsh
+    simpa using this
 
 end IGVerif.Combo
